@@ -454,6 +454,12 @@ func (fa *Facts) transfer(in DNF, pred, succ *ssa.BasicBlock, predIdx int) DNF {
 			if b, ok := phi.Type().Underlying().(*types.Basic); ok && (b.Info()&types.IsString != 0 || isDur) {
 				// provenance of string-valued phis (user names etc.) and of durations: on this path the phi IS the operand
 				add = append(add, Fact{Op: token.EQL, X: phi, Y: op})
+			} else if ok && b.Info()&types.IsBoolean != 0 {
+				// a verdict merged from call results: remember which call's verdict it is on this path (flag webs
+				// merged from other phis or comparisons are not tracked; they would multiply the disjuncts)
+				if cl, _ := callResult(op); cl != nil {
+					add = append(add, Fact{Op: token.EQL, X: phi, Y: op})
+				}
 			}
 			for _, g := range nList {
 				if g.X == op {
